@@ -228,6 +228,7 @@ func propC11(r *kernel.Run) {
 			}
 			ct := append([]byte(nil), f.ct...)
 			corrupt := "none"
+			mixedPair := false
 			switch tp.Draw(9) {
 			case 0:
 				b := tp.Draw(len(ct) * 8)
@@ -264,6 +265,25 @@ func propC11(r *kernel.Run) {
 					ct = other
 				}
 				corrupt = "foreign-valid-blob"
+			}
+			if corrupt == "none" && recv.prev != nil && tp.Draw(10) == 0 {
+				// a message sealed with the receiver's RETIRED secret but labelled with its CURRENT key ID (or the other way
+				// round): a (secret, key ID) pair that is neither the receiver's current nor its recorded previous one
+				curID, prevID := keyID(recv.cur.pkix), keyID(recv.prev.pkix)
+				if curID != prevID && !bytes.Equal(recv.cur.secret(), recv.prev.secret()) {
+					src := keySrc{curID, recv.prev.secret()}
+					corrupt = "retired-secret-under-current-key-id"
+					if tp.Draw(2) == 0 {
+						src = keySrc{prevID, recv.cur.secret()}
+						corrupt = "current-secret-under-retired-key-id"
+					}
+					if mixed, err := nodeenrollment.EncryptMessage(ctx, f.msg, src); err == nil {
+						ct = mixed
+						mixedPair = true
+					} else {
+						corrupt = "none"
+					}
+				}
 			}
 			if corrupt != "none" {
 				r.Count("fault.wire."+corrupt, 1)
@@ -322,7 +342,7 @@ func propC11(r *kernel.Run) {
 					r.Count("probe.decrypted_with_previous_key", 1)
 				}
 			} else if err == nil {
-				if !(matchCur || matchPrev) || !proto.Equal(out, f.msg) {
+				if mixedPair || !(matchCur || matchPrev) || !proto.Equal(out, f.msg) {
 					r.Violate("authenticated", "corrupted-ciphertext-accepted/"+corrupt, "a %s ciphertext decrypted to a message that is not the original (or under a non-matching key): %s", corrupt, desc)
 				}
 				r.Count("probe.corruption_harmless", 1)
